@@ -38,8 +38,13 @@ func init() {
 			// handler then denies, fault_never_ok) - never data with a nil error
 			redisFaultSweep(r, "[C01]", map[string]bool{"gettok": true, "getauth": true, "settok": true})
 		}
+		if r.unknownViolations() == 0 {
+			// a session used at one service instance, logged out at another, presented again at the first: whatever an instance
+			// remembers locally, a logged-out session is never answered OK
+			replicaLogout(r)
+		}
 		if r.unknownViolations() > 0 {
-			r.Finish("busy sessions past the absolute session timeout; Redis command-level faults")
+			r.Finish("busy sessions past the absolute session timeout; Redis command-level faults; sessions used at two instances on one Redis")
 			return
 		}
 		runHistories(r, profile{Hostile: 25, Faults: 30, Attack: 15, Logout: 6, Ticks: 18, OddRequest: true, Histories: scale(r, 60, 1500), Length: 45}, histRule)
@@ -157,6 +162,9 @@ func init() {
 		}
 		if r.unknownViolations() == 0 {
 			consistencyHammer(r, "[C04]")
+		}
+		if r.unknownViolations() == 0 {
+			systemRotation(r, "[C04]") // a long-lived filter, the Secret rotated between the redirect and the callback
 		}
 		if r.unknownViolations() > 0 {
 			r.Finish("interleavings of login callbacks under the controlled scheduler; logins spread over two instances")
